@@ -79,12 +79,16 @@ def _prepare(trace):
     else:
         victim = realize.realize(ctx.project, trace["victim"])
     ok = True
-    if mode in ("undo", "redo", "undo_sel"):
+    if mode in ("undo", "redo", "undo_sel", "redo_sel"):
         ctx.clock.advance(1_000_000_000)
         try:
             ctx.project.do(victim)
             if mode == "redo":
                 ctx.project.history.undo()
+            elif mode == "redo_sel":
+                # several change sets go to the redo list; the faulted call redoes some of them
+                h = ctx.project.history
+                h.undo(change=h.undo_list[ctx.sel % len(h.undo_list)])
         except Exception:
             ok = False
     ctx.clock.advance(1_000_000_000)
@@ -115,6 +119,8 @@ def _act(ctx, victim, mode, fault):
             h.undo(**kw)
         elif mode == "undo_sel":
             h.undo(change=h.undo_list[ctx.sel % len(h.undo_list)], **kw)
+        elif mode == "redo_sel":
+            h.redo(change=h.redo_list[(ctx.sel // 3) % len(h.redo_list)], **kw)
         else:
             h.redo(**kw)
     except (KeyboardInterrupt, SystemExit, kernel.HarnessError):
@@ -243,7 +249,7 @@ class AtomicEngine(Engine):
             classes = _classes_after(init, prelude[:-1])
             prelude.append({"op": "undo"})
             undone = 1
-        mode = rng.choice(["do", "do", "undo", "redo"] + (["undo_sel"] * 2 if len([p for p in prelude if p["op"] == "do"]) >= 1 else []))
+        mode = rng.choice(["do", "do", "undo", "redo"] + (["undo_sel", "undo_sel", "redo_sel"] if len([p for p in prelude if p["op"] == "do"]) >= 1 else []))
         allow_bad = mode == "do" and rng.random() < swarm["natural_fail_p"]
         victim, _after = gen.gen_changeset(rng, tree, classes, swarm, 1, allow_bad=allow_bad)
         victim["desc"] = "victim"
@@ -408,7 +414,7 @@ class AtomicEngine(Engine):
         info["exc"] = type(exc).__name__
         after = _state(ctx)
         bad = False
-        if trace["mode"] == "undo_sel":
+        if trace["mode"] in ("undo_sel", "redo_sel"):
             # A selective undo of several change sets undoes them one by one;
             # stopped part-way it must leave a *consistent* state: every change
             # set either fully undone (and on the redo list) or fully in force,
